@@ -371,6 +371,32 @@ def instrument(rec: Rec, poison: dict) -> Iterator[None]:
 
     patch(processing, "process_resource_event", p_process_resource_event)
 
+    # ---- the keep-alive task's withdrawal: `touch(lifetime=0)` in its `finally:` — the ATTEMPT and its outcome, also when
+    #      no request ever leaves (no credentials: LoginError before the request) ------------------------------------------
+    from kopf._core.engines import peering as _peering
+    orig_touch = _peering.touch
+
+    def p_touch(**kw: Any) -> Any:
+        if kw.get("lifetime") != 0:
+            return orig_touch(**kw)
+        kind, ref = rec.ref()          # called synchronously in the keep-alive task (the coroutine itself runs shielded)
+
+        async def run() -> Any:
+            rec.add("withdrawBegin", kind, ref)
+            try:
+                out = await orig_touch(**kw)
+            except asyncio.CancelledError:
+                rec.add("withdrawEnd", kind, ref, "CancelledError")
+                raise
+            except BaseException as e:  # noqa: BLE001
+                rec.add("withdrawEnd", kind, ref, type(e).__name__)
+                raise
+            rec.add("withdrawEnd", kind, ref, None)
+            return out
+        return run()
+
+    patch(_peering, "touch", p_touch)
+
     # ---- exit stoppers of daemons -------------------------------------------------------------------------
     orig_stop_daemon = daemons.stop_daemon
 
